@@ -12,7 +12,21 @@ BASELINE = ("cd /repo && cargo nextest run --workspace --no-fail-fast --test-thr
             "|| cargo test --workspace --no-fail-fast --offline")
 
 
+def _sanity():
+    """a merged private copy must not leave scratch paths behind"""
+    import os, re, sys
+    root = os.path.dirname(os.path.dirname(os.path.abspath(__file__)))
+    t = open(os.path.join(root, "harness", "Cargo.toml")).read()
+    bad = [m for m in re.findall(r'path = "([^"]*)/h3[a-z-]*"', t) if m != "/repo"]
+    if bad:
+        print("ERROR: harness/Cargo.toml points at %s, not /repo" % sorted(set(bad)))
+        sys.exit(1)
+    if os.path.exists(os.path.join(root, ".repo_path")):
+        print("WARNING: .repo_path present: checks do not run against /repo")
+
+
 def main():
+    _sanity()
     props = {}
     d = os.path.join(ROOT, "tools", "props")
     for f in sorted(os.listdir(d)):
